@@ -233,7 +233,7 @@ func c14DecoderPurity(c *Ctx) {
 					continue
 				}
 				// an error variable of the package that is only ever assigned newly built errors is a constant
-				if w.sentinelError(g) || w.readOnlyGlobal(g) {
+				if w.sentinelError(g) || w.readOnlyGlobal(g) || w.statCounterGlobal(g, set) {
 					continue
 				}
 				bad, where = g.Name(), w.ipos(in)
